@@ -91,16 +91,29 @@ def best_first(ctx: Ctx, f, astar: bool):
         edge_loop = pn.loop
         ctx.ob("C11-O1", "R21 POP-TIME-GOAL", f, "expansion iterates the neighbours of the popped node", edge_loop is not None and edge_loop.kind == "for" and ast.unparse(edge_loop.ast.iter) == f"neighbors({cur})", "", node=p)
     # O2 verdicts
+    def _branches(site, base):
+        """(status name, guard atoms) per way the site can publish: a status chosen by `A if test else B` - written in
+        place or through a local assigned once - is read as two publications, each under its side of the test"""
+        st_ = site.arg("status")
+        if isinstance(st_, ast.Name):
+            ds = [x.value for x in own_nodes(f.node) if isinstance(x, ast.Assign) and len(x.targets) == 1 and ast.unparse(x.targets[0]) == st_.id]
+            st_ = ds[0] if len(ds) == 1 else st_
+        if isinstance(st_, ast.IfExp) and all(isinstance(b, ast.Attribute) and ast.unparse(b.value) == "Status" for b in (st_.body, st_.orelse)):
+            return [(st_.body.attr, set(base) | set(_atoms(st_.test, True))), (st_.orelse.attr, set(base) | set(_atoms(st_.test, False)))]
+        return [(None, base)]
+
     for k, r in enumerate(sites):
-        a2 = gv.guard_atoms(r.node)
-        if "INFEASIBLE" in r.statuses:
-            ctx.ob("C11-O2", "R2 BUDGET-EXIT", f, "INFEASIBLE only when the frontier ran out", (f"F:{heap}" in a2 or atom_of("iterations < max_iter") in a2) and r.node.loop is None, f"{sorted(a2)}", node=r.call)
-        if "MAX_ITER" in r.statuses:
-            ctx.ob("C11-O2", "R1 STATUS-GUARD", f, "MAX_ITER only while a node still waits in the frontier", f"T:{heap}" in a2 and r.node.loop is None, f"{sorted(a2)}: told from INFEASIBLE by the counter alone, a search whose frontier ran empty on the last allowed iteration reports MAX_ITER for a goal it has shown to be unreachable (ledger row 79)", node=r.call)
-            drains = [w for w in own_nodes(f.node) if isinstance(w, ast.While) and "max_iter" not in names_in(w.test)]
-            last = len(key.elts) - 1
-            okd = len(drains) == 1 and canon(drains[0].test) in {canon(ast.parse(f"{heap} and {heap}[0][{k_}] in closed", mode="eval").body) for k_ in (-1, last)} and [ast.unparse(x) for x in drains[0].body] == [f"heappop({heap})"] and not drains[0].orelse and cfg.dominates(cfg.stmt_node_containing(drains[0].test), r.node)
-            ctx.ob("C11-O2", "R2 BUDGET-EXIT", f, "entries of closed nodes are dropped before the frontier is asked whether a node still waits", okd, f"{[ast.unparse(w.test) for w in drains]}: a heap holding only leftovers of closed nodes is an exhausted frontier, and counting them as waiting nodes reports MAX_ITER for a settled question", node=drains[0] if drains else r.call)
+        base_atoms = gv.guard_atoms(r.node)
+        for only_, a2 in _branches(r, base_atoms) if {"INFEASIBLE", "MAX_ITER"} <= set(r.statuses) else [(None, base_atoms)]:
+            sts = set(r.statuses) if only_ is None else {only_}
+            if "INFEASIBLE" in sts:
+                ctx.ob("C11-O2", "R2 BUDGET-EXIT", f, "INFEASIBLE only when the frontier ran out", (f"F:{heap}" in a2 or atom_of("iterations < max_iter") in a2) and r.node.loop is None, f"{sorted(a2)}", node=r.call)
+            if "MAX_ITER" in sts:
+                ctx.ob("C11-O2", "R1 STATUS-GUARD", f, "MAX_ITER only while a node still waits in the frontier", f"T:{heap}" in a2 and r.node.loop is None, f"{sorted(a2)}: told from INFEASIBLE by the counter alone, a search whose frontier ran empty on the last allowed iteration reports MAX_ITER for a goal it has shown to be unreachable (ledger row 79)", node=r.call)
+                drains = [w for w in own_nodes(f.node) if isinstance(w, ast.While) and "max_iter" not in names_in(w.test)]
+                last = len(key.elts) - 1
+                okd = len(drains) == 1 and canon(drains[0].test) in {canon(ast.parse(f"{heap} and {heap}[0][{k_}] in closed", mode="eval").body) for k_ in (-1, last)} and [ast.unparse(x) for x in drains[0].body] == [f"heappop({heap})"] and not drains[0].orelse and cfg.dominates(cfg.stmt_node_containing(drains[0].test), r.node)
+                ctx.ob("C11-O2", "R2 BUDGET-EXIT", f, "entries of closed nodes are dropped before the frontier is asked whether a node still waits", okd, f"{[ast.unparse(w.test) for w in drains]}: a heap holding only leftovers of closed nodes is an exhausted frontier, and counting them as waiting nodes reports MAX_ITER for a settled question", node=drains[0] if drains else r.call)
     if astar:
         st = s.arg("status")
         d = [x.value for x in own_nodes(f.node) if isinstance(st, ast.Name) and isinstance(x, ast.Assign) and ast.unparse(x.targets[0]) == st.id]
